@@ -443,6 +443,22 @@ func (fx *FX) addLoopNames(fr *frame, env *Env, b *ssa.BasicBlock) {
 			env.names[phi.Comment] = v
 		}
 	}
+	// loop variables renamed since the contracts were written
+	if rec := fx.e.Recorded[fx.e.fnName(fr.fn)]; rec != nil {
+		if ord, ok := fr.loopOrd[b]; ok {
+			for _, o := range rec.Loops[itoa(ord)] {
+				if o.Name == "" {
+					continue
+				}
+				if _, have := env.names[o.Name]; have {
+					continue
+				}
+				if phi := fx.e.phiAlias(fr.fn, b, ord, o.Name); phi != nil && phi.Comment != "rangeindex" {
+					env.names[o.Name] = fr.vals[phi]
+				}
+			}
+		}
+	}
 	// "$pos": byte offset of the rune a string range loop is about to decode
 	for _, instr := range b.Instrs {
 		if nx, ok := instr.(*ssa.Next); ok && nx.IsString && fx.hasUTF8() && env.st != nil {
